@@ -257,8 +257,43 @@ def triage(r):
     """Why a mutant that survives the tests and that no check reports is not a violation of any of the 18
     properties (None = not triaged: look at it)."""
     k, w, old, new, f = r["kind"], r["where"], r["old"], r["new"], r["file"]
-    if w == "bytes_to_clamped_scalar":
+    if w == "bytes_to_clamped_scalar" or (w == "<module>" and f == "ed25519_basic.py" and r["line"] in (195, 196)):
         return "unused function (no caller in the package)"
+    if f.startswith("parameters/") and k == "const" and old.startswith('"'):
+        return "entry of an __all__ tuple (star-import list only)"
+    if k == "const" and old.startswith('"') and old.strip('"') in ("ElementOfUnknownGroup", "Element", "_Element", "IntegerGroup"):
+        return "string annotation (forward reference), never evaluated"
+    if w == "_double_and_add" and (k in ("cmp", "const") and r["line"] == 106):
+        return "n = 0 never reaches a ladder: Element.scalarmult returns Zero for s = 0 (mod L) first, and the unknown-group class is not handed out by the group API"
+    if w == "_double_and_add" and k == "argswap":
+        return "the addition is commutative"
+    if w == "_efgh_to_extended" and k == "drop-mod":
+        return "intermediate reduction: T is reduced again by its next use and read by neither the identity test nor the encoder"
+    if f == "params.py" and "_str" in old:
+        return "M_str/N_str/S_str keep the seeds for information; nothing reads them and no property names them"
+    if w == "_extract_message" and k == "cmp" and r["line"] == 222:
+        return "selects the text of the error message only"
+    if w.startswith("_require"):
+        return "type guard helper (misuse)"
+    if k == "del-expr" and "_require" in old:
+        return "call of a type guard helper (misuse)"
+    if k in ("nameswap", "attrswap", "del-store"):
+        if "element_size_bits" in old or (f == "groups.py" and r["line"] == 121):
+            return "element_size_bits is read by nothing in the package and named by no property"
+        if w == "__init__" and old in ("idA", "idB"):
+            return "type assertion checks the other identity twice (misuse)"
+        if w == "_extract_message":
+            return "selects the text of the error message only"
+        if w == "_add" and old in ("e1", "e2"):
+            return "type guard / same-group assertion on the other operand (misuse)"
+        if w == "encodepoint" and old == "y":
+            return "the range assertion is equally true of x"
+        if f == "ed25519_group.py":
+            return "scalar_size_bytes = element_size_bytes = 32 for Ed25519"
+        if w == "size_bits":
+            return "Python 2.6 fallback, dead on Python 3"
+        if f == "params.py":
+            return "M_str/N_str/S_str keep the seeds for information; nothing reads them and no property names them"
     if k == "del-assert":
         if "isinstance" in old:
             return "type assertion on an argument (misuse by the caller; no property speaks about wrong-typed arguments)"
@@ -296,15 +331,12 @@ def triage(r):
     return None
 
 
-def report(path, out):
+def report_one(path, title):
     rows = [json.loads(l) for l in open(path)]
     surv = [r for r in rows if r["tests"] == "survive"]
     silent = [r for r in surv if not r["checks"] and not r["analysis_errors"]]
-    noverdict = [r for r in rows if r["analysis_errors"] and not r["checks"]]
     killed_silent = [r for r in rows if r["tests"] != "survive" and not r["checks"] and not r["analysis_errors"]]
-    L = ["# First-order mutation sweep", "",
-         "Generated by `tools/mutation_sweep.py` (see DESIGN.md 11.8).  Every mutant is checked by all 18 static checks on a scratch copy;",
-         "the repository's tests are run on the copy only to classify it (killed / survives).", "",
+    L = ["## " + title, "",
          "| | count |", "|---|---|",
          "| mutants | %d |" % len(rows),
          "| killed by the tests | %d |" % (len(rows) - len(surv)),
@@ -320,29 +352,43 @@ def report(path, out):
         for c in r["checks"]:
             by[c] = by.get(c, 0) + 1
     L += ["Mutants reported per property: " + ", ".join("%s %d" % (k, v) for k, v in sorted(by.items())), ""]
-    L += ["## Mutants that survive the tests and that no check reports", "",
+    L += ["### Mutants that survive the tests and are reported by a check (what the tests miss)", "",
+          "| file:line | function | mutation | reported by |", "|---|---|---|---|"]
+    esc = lambda x, n: x.replace("|", "\\|").replace("\n", " ")[:n]
+    for r in surv:
+        if r["checks"]:
+            L.append("| %s:%d | %s | %s `%s` -> `%s` | %s |" % (r["file"], r["line"], r["where"], r["kind"], esc(r["old"], 60), esc(r["new"], 40), ", ".join(r["rules"][:4])))
+    L += ["", "### Mutants that survive the tests and that no check reports", "",
           "| file:line | function | mutation | why it is not a violation |", "|---|---|---|---|"]
     untri = 0
     for r in silent:
         t = triage(r)
         untri += t is None
-        L.append("| %s:%d | %s | %s `%s` -> `%s` | %s |" % (r["file"], r["line"], r["where"], r["kind"], r["old"].replace("|", "\\|").replace("\n", " ")[:60],
-                                                              r["new"].replace("|", "\\|").replace("\n", " ")[:40], t or "**NOT TRIAGED**"))
+        L.append("| %s:%d | %s | %s `%s` -> `%s` | %s |" % (r["file"], r["line"], r["where"], r["kind"], esc(r["old"], 60), esc(r["new"], 40), t or "**NOT TRIAGED**"))
     L += ["", "%d rows, %d not triaged." % (len(silent), untri), ""]
-    L += ["## Mutants the tests kill and every check is silent on", "",
+    L += ["### Mutants the tests kill and every check is silent on", "",
           "| file:line | function | mutation | |", "|---|---|---|---|"]
     for r in killed_silent:
-        L.append("| %s:%d | %s | %s `%s` -> `%s` | %s |" % (r["file"], r["line"], r["where"], r["kind"], r["old"].replace("|", "\\|").replace("\n", " ")[:60],
-                                                              r["new"].replace("|", "\\|").replace("\n", " ")[:40], triage(r) or "misuse guard / outside the properties"))
+        L.append("| %s:%d | %s | %s `%s` -> `%s` | %s |" % (r["file"], r["line"], r["where"], r["kind"], esc(r["old"], 60), esc(r["new"], 40), triage(r) or "misuse guard / outside the properties"))
     L += ["", "%d rows." % len(killed_silent), ""]
+    print("%s: %d mutants, %d silent survivors (%d not triaged), %d killed-but-silent" % (title, len(rows), len(silent), untri, len(killed_silent)))
+    return L
+
+
+def report(specs, out):
+    L = ["# Mutation sweeps", "",
+         "Generated by `tools/mutation_sweep.py --report` from the result tables under `mutation/` (see DESIGN.md 11.8).  Every mutant is checked by",
+         "all 18 static checks on a scratch copy; the repository's tests are run on the copy only to classify it (killed / survives).", ""]
+    for spec in specs:
+        path, _, title = spec.partition("=")
+        L += report_one(path, title or os.path.basename(path))
     open(out, "w").write("\n".join(L) + "\n")
-    print("%s written: %d mutants, %d silent survivors (%d not triaged), %d killed-but-silent" % (out, len(rows), len(silent), untri, len(killed_silent)))
 
 
 def main():
     if "--report" in sys.argv:
         a = sys.argv[1:]
-        return report(a[a.index("--report") + 1], os.path.join(VERIF, "MUTATION.md"))
+        return report(a[a.index("--report") + 1:], os.path.join(VERIF, "MUTATION.md"))
     a = sys.argv[1:]
     src = a[a.index("--src") + 1] if "--src" in a else os.environ.get("VERIF_REPO", "/repo")
     jobs = int(a[a.index("--jobs") + 1]) if "--jobs" in a else 14
